@@ -363,64 +363,10 @@ impl PubSubManager {
 }
 
 /// Check if a pattern matches a channel name
-/// Supports glob-style patterns with * and ?
+/// Glob-style patterns as everywhere else in the server (KEYS, SCAN MATCH): `*`, `?`, `[...]` classes with ranges
+/// and `^`, `\x` escapes - PSUBSCRIBE h[ae]llo receives what is published on hello and hallo, as in Redis
 pub fn pattern_matches(pattern: &[u8], channel: &[u8]) -> bool {
-    let mut p_idx = 0;
-    let mut c_idx = 0;
-    let mut star_idx = None;
-    let mut star_match_idx = 0;
-    
-    while c_idx < channel.len() {
-        if p_idx < pattern.len() {
-            match pattern[p_idx] {
-                b'?' => {
-                    // ? matches any single character
-                    p_idx += 1;
-                    c_idx += 1;
-                    continue;
-                }
-                b'*' => {
-                    // * matches zero or more characters
-                    star_idx = Some(p_idx);
-                    star_match_idx = c_idx;
-                    p_idx += 1;
-                    continue;
-                }
-                b'\\' if p_idx + 1 < pattern.len() => {
-                    // Escaped character
-                    if pattern[p_idx + 1] == channel[c_idx] {
-                        p_idx += 2;
-                        c_idx += 1;
-                        continue;
-                    }
-                }
-                _ => {
-                    // Regular character match
-                    if pattern[p_idx] == channel[c_idx] {
-                        p_idx += 1;
-                        c_idx += 1;
-                        continue;
-                    }
-                }
-            }
-        }
-        
-        // No match, try to backtrack to last *
-        if let Some(star_pos) = star_idx {
-            p_idx = star_pos + 1;
-            star_match_idx += 1;
-            c_idx = star_match_idx;
-        } else {
-            return false;
-        }
-    }
-    
-    // Skip trailing * in pattern
-    while p_idx < pattern.len() && pattern[p_idx] == b'*' {
-        p_idx += 1;
-    }
-    
-    p_idx == pattern.len()
+    crate::storage::engine::pattern_matches(pattern, channel)
 }
 
 /// Format a pub/sub message frame
